@@ -194,7 +194,7 @@ async fn run_async(scn: &Scn) {
         }
     }
     let log = simrt::tokio_net::take_udp_log();
-    let complete = des && !midrun && !has_fault(scn, "udp_send_error");
+    let complete = des && !midrun && !has_fault(scn, "udp_send_error") && !has_fault(scn, "udp_recv_error");
     if !crate::util::has_violation() {
         judge_udp(scn, &log, &reference_server, complete);
     }
